@@ -26,7 +26,7 @@ type c06 struct{}
 func init() { Props["C06"] = &c06{} }
 
 func (c *c06) Rule() string {
-	return "seeded schedules (uniform random walk, PCT with 1-3 priority change points, run-to-completion with random preemptions) over 2-4 tasks x 1-8 operations drawn from Detect, DetectReader over a chunked (sometimes failing) simulated reader, DetectFile on a simulated file, Lookup followed by accessors, SetLimit with run-unique values, package-level Extend and Lookup(p).Extend on built-ins and earlier extensions with yielding DSL predicates and caller-owned alias slices of varying spare capacity (some sharing one backing array that another task keeps reading), accessors on values produced by another task, shared input buffers; pool policy adversarial. Each run is judged by (1) the race detector (race build), (2) deadlock / panic / missing return, (3) porcupine over the invoke/return history against the model (limit sampled at one instant of the call, extension set at one instant of the call), (4) canaries in caller-owned memory. Non-trivial = at least one writer operation overlapped a reader operation in the recorded history; distinct = distinct conflict signatures (order of lock grants, atomic accesses and pool hand-overs) among those"
+	return "first (race build) two callers detecting every entry of the repository's sample table at once; then seeded schedules (uniform random walk, PCT with 1-3 priority change points, run-to-completion with random preemptions) over 2-4 tasks x 1-8 operations drawn from Detect, DetectReader over a chunked (sometimes failing) simulated reader, DetectFile on a simulated file, Lookup followed by accessors, SetLimit with run-unique values, package-level Extend and Lookup(p).Extend on built-ins and earlier extensions with yielding DSL predicates and caller-owned alias slices of varying spare capacity (some sharing one backing array that another task keeps reading), accessors on values produced by another task (some handed over before their producer looked at them), shared input buffers, limits up to 128 MiB, colliding names, detections-only runs over the C04 inputs; pool policy adversarial. Each run is judged by (1) the race detector (race build), (2) deadlock / panic / missing return, (3) porcupine over the invoke/return history against the model (limit sampled at one instant of the call, extension set at one instant of the call), (4) canaries in caller-owned memory. Non-trivial = at least one writer operation overlapped a reader operation in the recorded history; distinct = distinct conflict signatures (order of lock grants, atomic accesses and pool hand-overs) among those"
 }
 
 var c06LimitPool = []uint32{0, 1, 5, 16, 17, 64, 100, 300, 1000, 3072, 4096, 5000}
